@@ -29,12 +29,17 @@ def ob(name, ni, ng, nt, two_cycles, timeout, glob=False):
                         "; the function also declares one global (hard-register) variable" if glob else ""))
 
 
+REGEN = Ob("regen.already-generated", "C16/regen.c", entry="harness", unwind=3, checks="functional", object_bits=12, timeout=900,
+           native_cc=["-no-pie", "-Wl,--unresolved-symbols=ignore-all"],
+           sample="MIR_gen twice on a function whose machine code exists (generate_func_code early exit): symbolic thunk / code / call addresses")
+
+
 def obligations(tier):
     """one obligation per function length (the length is concrete per obligation, the shape of every insn symbolic)"""
     if tier == "quick":
-        return [ob("duprest.n%d.g2.t2.cycle1" % n, n, 2, 2, False, 1800) for n in (1, 2, 3)] + [ob("duprest.n2.g1.t1.cycle2", 2, 1, 1, True, 1800),
+        return [REGEN] + [ob("duprest.n%d.g2.t2.cycle1" % n, n, 2, 2, False, 1800) for n in (1, 2, 3)] + [ob("duprest.n2.g1.t1.cycle2", 2, 1, 1, True, 1800),
                                                                                                           ob("duprest.global.n1.g1.t2.cycle1", 1, 1, 2, False, 1800, glob=True)]
-    return [ob("duprest.n%d.g3.t3.cycle1" % n, n, 3, 3, False, 3600) for n in (1, 2, 3, 4, 5)] \
+    return [REGEN] + [ob("duprest.n%d.g3.t3.cycle1" % n, n, 3, 3, False, 3600) for n in (1, 2, 3, 4, 5)] \
         + [ob("duprest.n%d.g2.t2.cycle2" % n, n, 2, 2, True, 3600) for n in (2, 3, 4)] \
         + [ob("duprest.global.n%d.g2.t2.cycle%d" % (n, c), n, 2, 2, c == 2, 3600, glob=True) for n, c in ((1, 1), (2, 1), (2, 2))]
 
@@ -46,7 +51,8 @@ META = {
     "assumptions": [
         "claimed part only: the copy/restore protocol; that no generator pass writes through a pointer into original_insns is a whole-generator "
         "frame condition and is NOT proved; the generator is modelled as an arbitrary sequence of list/operand edits on the WORKING list",
-        "the already-generated path of generate_func_code lives in mir-gen.c (another translation unit, behind MIR_gen_init state) and is not encoded",
+        "the already-generated path of generate_func_code (mir-gen.c) is checked by regen.already-generated with _MIR_redirect_thunk stubbed (records its arguments); "
+        "the generating path (the whole pipeline) is not encoded",
         "library state (context, function, register tables, string table with the names t1..t8 interned) CONSTRUCTED DIRECTLY as static data; "
         "insns are slot-allocator blocks (typed 8-byte cells, 176 bytes) filled in directly; native replay uses MIR_init and the real API",
         "mir-htab.h replaced by the abstract-map model (justified by C19); constant hash; build flags MIR_NO_INTERP/MIR_NO_IO/MIR_NO_SCAN",
